@@ -20,6 +20,28 @@ fn su(s: &str) -> Option<SpeedUnit> {
     U::SPEED_UNITS.iter().copied().find(|u| u.to_string() == s)
 }
 
+/// vehicle cost rates: the repo's own serde form cannot represent `Combined` (a sequence inside an
+/// internally tagged enum), so replay files use an explicit form
+pub fn rate_to_json(r: &VehicleCostRate) -> Value {
+    match r {
+        VehicleCostRate::Zero => json!({"type": "zero"}),
+        VehicleCostRate::Raw => json!({"type": "raw"}),
+        VehicleCostRate::Factor { factor } => json!({"type": "factor", "factor": factor}),
+        VehicleCostRate::Offset { offset } => json!({"type": "offset", "offset": offset}),
+        VehicleCostRate::Combined(v) => json!({"type": "combined", "rates": v.iter().map(rate_to_json).collect::<Vec<_>>()}),
+    }
+}
+pub fn rate_from_json(v: &Value) -> Option<VehicleCostRate> {
+    match v["type"].as_str()? {
+        "zero" => Some(VehicleCostRate::Zero),
+        "raw" => Some(VehicleCostRate::Raw),
+        "factor" => Some(VehicleCostRate::Factor { factor: v["factor"].as_f64()? }),
+        "offset" => Some(VehicleCostRate::Offset { offset: v["offset"].as_f64()? }),
+        "combined" => Some(VehicleCostRate::Combined(v["rates"].as_array()?.iter().filter_map(rate_from_json).collect())),
+        _ => None,
+    }
+}
+
 pub fn od_to_json(od: &Od) -> Value {
     match od {
         Od::Vertex(o, d) => json!({"kind": "vertex", "o": o, "d": d}),
@@ -167,7 +189,7 @@ pub fn world_to_json(w: &World) -> Value {
         },
         "cost": {
             "weights": w.cost.weights,
-            "vehicle_rates": w.cost.vehicle_rates.iter().map(|(k, v)| json!([k, serde_json::to_value(v).unwrap_or(Value::Null)])).collect::<Vec<_>>(),
+            "vehicle_rates": w.cost.vehicle_rates.iter().map(|(k, v)| json!([k, rate_to_json(v)])).collect::<Vec<_>>(),
             "edge_surcharge": w.cost.edge_surcharge.iter().map(|(k, t)| { let mut rows: Vec<(usize, f64)> = t.iter().map(|(e, c)| (*e, *c)).collect(); rows.sort_by_key(|r| r.0); json!([k, rows]) }).collect::<Vec<_>>(),
             "turn_surcharge": w.cost.turn_surcharge.iter().map(|(k, t)| { let mut rows: Vec<(usize, usize, f64)> = t.iter().map(|((a, b), c)| (*a, *b, *c)).collect(); rows.sort_by_key(|r| (r.0, r.1)); json!([k, rows]) }).collect::<Vec<_>>(),
             "aggregation": match w.cost.agg { CostAggregation::Sum => "sum", CostAggregation::Mul => "mul" },
@@ -215,7 +237,7 @@ pub fn world_from_json(v: &Value) -> Option<World> {
     let vehicle_rates = c["vehicle_rates"]
         .as_array()?
         .iter()
-        .filter_map(|w| Some((w[0].as_str()?.to_string(), serde_json::from_value::<VehicleCostRate>(w[1].clone()).ok()?)))
+        .filter_map(|w| Some((w[0].as_str()?.to_string(), rate_from_json(&w[1])?)))
         .collect();
     let edge_surcharge = c["edge_surcharge"]
         .as_array()?
